@@ -58,6 +58,7 @@ pub fn run(st: &mut State, op: &str, input: &Value) -> Option<Out> {
         "patrow" => Some(pattern::patrow(st, input)),
         "patmatch" => Some(pattern::patmatch(input)),
         "best" => Some(pattern::best(input)),
+        "patmatrix" => Some(pattern::patmatrix(input)),
         "reduce" => Some(pattern::reduce(input)),
         "pkgname" => Some(names::pkgname(input)),
         "pkgpath" => Some(names::pkgpath(input)),
